@@ -82,7 +82,7 @@ def parse_vspec(text, origin="<vspec>"):
             elif d == "@wrap-from":
                 cur_file.wrap = True
                 cur_file.wrap_from = arg.strip()[1:-1]
-            elif d in ("@top", "@bottom", "@file-replace"):
+            elif d in ("@top", "@bottom", "@file-replace", "@pre-replace", "@pre-replace-code", "@require"):
                 cur_fn = None
                 cur_block = Block(d[1:], arg, ln); cur_file.blocks.append(cur_block)
             elif d == "@fn":
@@ -91,10 +91,14 @@ def parse_vspec(text, origin="<vspec>"):
                 cur_fn.props = arg.split()
             elif d in ("@attr", "@ret"):
                 b = Block(d[1:], arg, ln); cur_fn.blocks.append(b)
+            elif d == "@match-consts":
+                cur_fn.blocks.append(Block("match-consts", arg, ln))
             elif d in ("@spec", "@loop", "@at", "@closure", "@replace", "@replace-all"):
                 cur_block = Block(d[1:], arg, ln); cur_fn.blocks.append(cur_block)
             elif d == "@break-value-loops":
                 cur_fn.blocks.append(Block("bvl", "", ln))
+            elif d == "@desugar-for":
+                cur_block = Block("desugar-for", arg, ln); cur_fn.blocks.append(cur_block)
             elif d == "@twin":
                 cur_fn.twin = arg.strip()
             elif d == "@twin-subst":
@@ -179,6 +183,29 @@ def _find_fn(fns, path, relfile):
 def annotate_file(src, fspec, relfile):
     """Returns (new_source, obligations) where obligations is a list of dicts
     {id, fn, props, kind}."""
+    # pre-rewrites: plain regex substitutions on the raw source, applied before anything is located
+    for b in fspec.blocks:
+        if b.kind == "require":
+            if not re.search(b.arg.strip()[1:-1], src):
+                raise AnchorLost("%s: required text /%s/ not found" % (relfile, b.arg.strip()[1:-1]))
+        if b.kind == "pre-replace":
+            rx = re.compile(b.arg.strip()[1:-1])
+            src = rx.sub(lambda m: m.expand("\n".join(_strip_blank(b.lines))), src)
+        if b.kind == "pre-replace-code":
+            # like pre-replace, but not inside `use ...;` items nor on `const` definitions
+            rx = re.compile(b.arg.strip()[1:-1])
+            out_lines, in_use = [], False
+            for line in src.split("\n"):
+                st = line.strip()
+                if st.startswith("use ") or st.startswith("pub use "):
+                    in_use = True
+                if in_use or re.search(r"\bconst\b", st):
+                    out_lines.append(line)
+                else:
+                    out_lines.append(rx.sub(lambda m: m.expand("\n".join(_strip_blank(b.lines))), line))
+                if in_use and st.endswith(";"):
+                    in_use = False
+            src = "\n".join(out_lines)
     toks, fns = rustlex.index_functions(src)
     edits = []   # (pos, order, text)  insertions; replacements as (start, end, text)
     repls = []
@@ -296,6 +323,103 @@ def annotate_file(src, fspec, relfile):
                     if len(ms) != 1:
                         raise AnchorLost("%s: `%s`: rewrite /%s/ matched %d times" % (relfile, fs.path, rx.pattern, len(ms)))
                     repls.append((item_s + ms[0].start(), item_s + ms[0].end(), ms[0].expand("\n".join(lines))))
+                elif b.kind == "desugar-for":
+                    # R6: `for PAT in ITER { BODY }` over a value that already is an Iterator (into_iter is
+                    # the identity) -> `{ let mut it = ITER; loop { match it.next() { None => break, Some(PAT) => { BODY } } } }`
+                    # with `enumerate`: ITER.enumerate() is replaced by an explicit counter.
+                    parts_ = b.arg.split()
+                    n = int(parts_[0])
+                    enum = len(parts_) > 1 and parts_[1] == "enumerate"
+                    if n > len(f.loops) or f.loops[n - 1].kw != "for":
+                        raise AnchorLost("%s: `%s`: loop %d is not a `for` loop" % (relfile, fs.path, n))
+                    lp = f.loops[n - 1]
+                    k_in = None
+                    q = lp.kw_tok + 1
+                    while q < lp.open:
+                        if toks[q].kind == "p" and toks[q].text in "([{":
+                            q = toks[q].match + 1
+                            continue
+                        if toks[q].kind == "id" and toks[q].text == "in":
+                            k_in = q
+                            break
+                        q += 1
+                    if k_in is None:
+                        raise AnchorLost("%s: `%s`: malformed for loop %d" % (relfile, fs.path, n))
+                    pat = src[toks[lp.kw_tok + 1].start:toks[k_in - 1].end]
+                    expr = src[toks[k_in + 1].start:toks[lp.open - 1].end]
+                    if enum:
+                        m_ = re.match(r"^\(\s*(\w+)\s*,\s*(\w+)\s*\)$", pat)
+                        if not m_ or not expr.rstrip().endswith(".enumerate()"):
+                            raise AnchorLost("%s: `%s`: loop %d is not `for (i, x) in e.enumerate()`" % (relfile, fs.path, n))
+                        ivar, pat = m_.group(1), m_.group(2)
+                        expr = expr.rstrip()[:-len(".enumerate()")]
+                        repls.append((toks[lp.kw_tok].start, toks[lp.open].start, "{ let mut it_%d = %s; let mut cnt_%d: usize = 0; loop " % (n, expr, n)))
+                        hook = "\n".join(lines)
+                        ins(toks[lp.open].start, "{ let ghost old_it_%d = it_%d; match it_%d.next() { None => { %s break; }, Some(%s) => { let %s = cnt_%d; cnt_%d = cnt_%d + 1; " % (n, n, n, hook, pat, ivar, n, n, n), order=3)
+                        ins(toks[lp.close].end, " } } } }", order=-3)
+                    else:
+                        repls.append((toks[lp.kw_tok].start, toks[lp.open].start, "{ let mut it_%d = %s; loop " % (n, expr)))
+                        hook = "\n".join(lines)
+                        ins(toks[lp.open].start, "{ let ghost old_it_%d = it_%d; match it_%d.next() { None => { %s break; }, Some(%s) => " % (n, n, n, hook, pat), order=3)
+                        ins(toks[lp.close].end, " } } }", order=-3)
+                elif b.kind == "match-consts":
+                    # R15 (structural): `match SCRUT { CURRENT_SEGMENT => A, PARENT_SEGMENT => B, _ => C }` where
+                    # the patterns are the external byte-string consts "." and ".." -> if/else chain on the bytes
+                    rx = re.compile(b.arg.strip()[1:-1])
+                    found = False
+                    for q in range(f.body_open, f.body_close):
+                        if toks[q].kind == "id" and toks[q].text == "match":
+                            r = q + 1
+                            while not (toks[r].kind == "p" and toks[r].text == "{"):
+                                if toks[r].kind == "p" and toks[r].text in "([":
+                                    r = toks[r].match
+                                r += 1
+                            scrut = src[toks[q + 1].start:toks[r - 1].end]
+                            if not rx.search(scrut):
+                                continue
+                            found = True
+                            mo, mc = r, toks[r].match
+                            conds = {"CURRENT_SEGMENT": "sb_.len() == 1 && sb_[0] == b'.'",
+                                     "PARENT_SEGMENT": "sb_.len() == 2 && sb_[0] == b'.' && sb_[1] == b'.'"}
+                            repls.append((toks[q].start, toks[mo].end, "{ let sb_ = %s; " % scrut))
+                            a = mo + 1
+                            first = True
+                            while a < mc:
+                                e = a
+                                while toks[e].text != "=>":
+                                    e += 1
+                                pat = src[toks[a].start:toks[e - 1].end].strip()
+                                if pat == "_":
+                                    head = "" if first else " else "
+                                elif pat in conds:
+                                    head = ("if " if first else " else if ") + conds[pat] + " "
+                                else:
+                                    raise AnchorLost("%s: `%s`: match arm pattern `%s` is not one of the segment consts" % (relfile, fs.path, pat))
+                                repls.append((toks[a].start, toks[e].end, head))
+                                first = False
+                                bs = e + 1
+                                if toks[bs].text == "{":
+                                    nxt = toks[bs].match + 1
+                                else:
+                                    be = bs
+                                    while True:
+                                        tt = toks[be]
+                                        if tt.kind == "p" and tt.text in "([{":
+                                            be = tt.match + 1
+                                            continue
+                                        if (tt.kind == "p" and tt.text == ",") or be >= mc:
+                                            break
+                                        be += 1
+                                    ins(toks[bs].start, "{ ", order=7)
+                                    ins(toks[be - 1].end, " }", order=-7)
+                                    nxt = be
+                                if nxt < mc and toks[nxt].text == ",":
+                                    repls.append((toks[nxt].start, toks[nxt].end, ""))
+                                    nxt += 1
+                                a = nxt
+                            break
+                    if not found:
+                        raise AnchorLost("%s: `%s`: no `match` on /%s/" % (relfile, fs.path, rx.pattern))
                 elif b.kind == "replace-all":
                     rx = re.compile(b.arg.strip()[1:-1])
                     body = src[item_s:item_e]
